@@ -29,6 +29,7 @@ structure World where
   txs : List Tx := []
   trace : List Ev := []
   plan : Option Plan := none
+  casDropped : Bool := false      -- the `Cas` handle was dropped but an `OrphanStats` keeps the inner alive
   deriving Repr
 
 def counted : Ev → Bool
